@@ -162,12 +162,20 @@ Loop:
 				err = krberror.Errorf(e, krberror.EncodingError, "error unmashalling ETYPE-INFO2 data")
 				return
 			}
+			if len(info) < 1 {
+				err = krberror.NewErrorf(krberror.EncodingError, "ETYPE-INFO2 data from the KDC contains no entries")
+				return
+			}
 			etypeID = info[0].EType
 			break Loop
 		case patype.PA_ETYPE_INFO:
 			info, e := pa.GetETypeInfo()
 			if e != nil {
 				err = krberror.Errorf(e, krberror.EncodingError, "error unmashalling ETYPE-INFO data")
+				return
+			}
+			if len(info) < 1 {
+				err = krberror.NewErrorf(krberror.EncodingError, "ETYPE-INFO data from the KDC contains no entries")
 				return
 			}
 			etypeID = info[0].EType
